@@ -89,6 +89,8 @@ CHECKS["C01"] = dict(
         R("h_inotify", "bound=1"),
         # cross-thread posts: the owner's event handlers unregister+free other events and the owner's descriptor
         R("h_event_mt", "bound=2 transports=0-3 p1=0,3,4 p2=0,3 hacts=1", sched=True),
+        # child-wait interests: unregister from the handler / by command while further statuses are queued
+        R("h_wait", "bound=1 steps=4", sched=True),
     ],
     thorough=[
         R("h_event_mt", "bound=3 transports=0-3 hacts=2", sched=True, share=0.3),
@@ -197,6 +199,7 @@ CHECKS["C07"] = dict(
     quick=[
         R("h_loop", "bound=2 seeds=0,1,6,10,11,12,20,21,23 nfd=2 ntm=1 ntk=1 nev=2 nraw=1 nsig=1 nwk=1 emfile=1 rules=%s" % C07_RULES),
         R("h_loop", "bound=2 seeds=16,17,18 nfd=1 ntm=3 ntk=1 nev=0 horizon=14 ops=leave,tmreg,tmunreg,tkreg,feed rules=%s" % C07_RULES),
+        R("h_loop", "bound=2 seeds=25 nfd=0 ntm=7 ntk=0 nev=0 horizon=12 ops=leave,tmunreg,tmreg rules=%s" % C07_RULES),
     ],
     thorough=[
         R("h_loop", "bound=2 seeds=0,1,6,10,11,12,20,21,23 nfd=2 ntm=1 ntk=1 nev=2 nraw=1 nsig=1 nwk=1 emfile=1 rules=%s" % C07_RULES),
@@ -239,7 +242,10 @@ INO_ASSUME = ["real inotify of the host kernel on a tmpfs scratch directory; no 
               "(the kernel's cross-group notification order is address dependent)",
               "bursts of <=2 operations before the first poll plus an optional later one; <=4 watches, <=2 instances"]
 CHECKS["C20"] = dict(
-    quick=[R("h_inotify", "bound=1")],
+    quick=[R("h_inotify", "bound=1"),
+           # two threads, each with its own instance and watched directory, dispatching concurrently
+           R("h_loops_mt", "bound=2 ino=1 sig=0", sched=True),
+           R("h_loops_mt", "bound=1 ino=1 sig=0 scan_stderr=1", variant="tsan", sched=True)],
     thorough=[R("h_inotify", "bound=2", share=0.5), R("h_inotify", "bound=3")],
     rule="5 watch-set presets (directory / file / second directory / one-shot / two instances) x 7x7 bursts of filesystem operations "
          "(create, write, rename within, rename across, unlink, rmdir of a watched directory) x optional second round, all crossed "
@@ -289,6 +295,7 @@ CHECKS["C14"] = dict(
            R("h_work", "bound=1 progs=0,1,3,4,5,8 puts=0,2,3 scan_stderr=1", variant="tsan", sched=True),
            R("h_thread", "bound=2 scan_stderr=1", variant="tsan", sched=True),
            R("h_loops_mt", "bound=2 scan_stderr=1", variant="tsan", sched=True),
+           R("h_loops_mt", "bound=1 ino=1 sig=0 scan_stderr=1", variant="tsan", sched=True),
            R("h_wait", "bound=1 steps=1 scan_stderr=1", variant="tsan", sched=True),
            R("h_signal", "bound=1 steps=2 scan_stderr=1", variant="tsan", sched=True)],
     thorough=[R("h_event_mt", "bound=2 transports=0-3 hacts=1 p1=0,1,3,4 p2=0,1,3 scan_stderr=1", variant="tsan", sched=True, share=0.25),
@@ -342,8 +349,11 @@ CHECKS["C12"] = dict(
 CHECKS["C13"] = dict(
     quick=[R("h_work", "bound=1", sched=True),
            R("h_work", "bound=2 methods=2 maxthreads=1,2 progs=1,2,5 puts=1-4", sched=True),
-           R("h_thread", "bound=3", sched=True)],
-    thorough=[R("h_work", "bound=2", sched=True, share=0.7), R("h_thread", "bound=8", sched=True)],
+           R("h_thread", "bound=3", sched=True),
+           # thread creation failing transiently (EAGAIN) while another worker exists
+           R("h_work", "bound=1 create_faults=1 methods=0 maxthreads=2", sched=True)],
+    thorough=[R("h_work", "bound=2", sched=True, share=0.6), R("h_thread", "bound=8", sched=True, share=0.5),
+              R("h_work", "bound=2 create_faults=1 methods=0,2 maxthreads=2 progs=1,2,7,8 puts=0,3", sched=True)],
     rule=WORK_RULE,
     explanation="after the release: items already submitted complete, every worker calls thread_stop once after thread_start, every created "
                 "thread finishes and is joined by the library, iv_main returns only then and does return; the pool struct is poisoned and "
@@ -414,7 +424,7 @@ C15_OPS = "leave,feed,tmreg,evpost,fdseth,tkreg"
 CHECKS["C15"] = dict(
     quick=[
         # (a) every exclusion set / spelling selects the first method not excluded, and the loop works under it
-        R("h_loop", "bound=0 exclsets=1 seeds=11,6,12 nraw=1 nsig=1 nwk=1"),
+        R("h_loop", "bound=1 exclsets=1 seeds=11,6,12,14,29 nraw=1 nsig=1 nwk=1 ops=leave,feed,pclose,fdseth,tmreg"),
         # (b) interrupted waits (at once / after part of the sleep), interrupted epoll_ctl / raw-event I/O, optional syscalls starting to fail at the k-th call
         R("h_loop", "bound=2 seeds=11,6,16,17,10,12 eintr_wait=1 eintr_io=1 sc_fault=1 nraw=1 nsig=1 ops=%s" % C15_OPS),
         # (c) each optional facility absent from the first call
